@@ -131,6 +131,35 @@ theorem C18_merge_pure (m : Mgr) (host : Option Str) (port : Val) (scheme : Opti
   · rfl
   · exact hc _
 
+/-! ## scheme / host case and explicit-vs-default port do not matter -/
+
+/-- `connection_from_host` with hosts and schemes equal up to ASCII case (same defaults, same
+`pool_kwargs`, same port argument) computes the same pool key; and passing no port is the same
+request context as passing the scheme's default port. -/
+theorem C18_case_port_normalised (d : Ctx) (kw : Option Ctx) (p : Val) {s₁ s₂ h₁ h₂ : Str}
+    {c₁ c₂ : Ctx} (hs : lower s₁ = lower s₂) (hh : lower h₁ = lower h₂)
+    (e₁ : requestContext d (some h₁) p (some s₁) kw = .ok c₁)
+    (e₂ : requestContext d (some h₂) p (some s₂) kw = .ok c₂) :
+    normalize c₁ = normalize c₂ ∧
+    ∀ n, List.lookup (lower (schemeOr s₁)) Gen.portByScheme = some n → n ≠ 0 →
+      requestContext d (some h₁) .none (some s₁) kw = requestContext d (some h₁) (.int n) (some s₁) kw := by
+  constructor
+  · rw [requestContext_eq] at e₁ e₂
+    split at e₁; · cases e₁
+    split at e₂; · cases e₂
+    cases e₁; cases e₂
+    have hl := lower_schemeOr hs
+    have hp : portOr p (schemeOr s₁) = portOr p (schemeOr s₂) := by unfold portOr; rw [hl]
+    rw [hp]
+    exact normalize_hostCtx_case _ _ hl hh
+  · intro n hn hne
+    rw [requestContext_eq, requestContext_eq]
+    have : portOr .none (schemeOr s₁) = portOr (.int n) (schemeOr s₁) := by
+      unfold portOr
+      have : (n : Int) ≠ 0 := by omega
+      simp [Val.truthy, hn, this]
+    rw [this]
+
 /-! ## the clash: why `NoClash` is needed -/
 
 /-- `{"file": "X", "key_file": "Y"}` and `{"file": "X", "key_file": "Z"}` get the same key although
@@ -170,6 +199,13 @@ example : isOk (normalize exA) = true ∧ isOk (normalize (set exA (lit "ssl_con
   refine ⟨by decide +kernel, by decide +kernel, by decide +kernel, by decide +kernel, by decide +kernel, ?_⟩
   rw [fieldEquiv_plain (by decide) (by decide) (by decide) (by decide)]
   decide +kernel
+
+/-- `C18_case_port_normalised`: `HTTP://EXAMPLE.com` without port and `http://example.com:80` -/
+example : ∃ c₁ c₂, requestContext [] (some (lit "EXAMPLE.com")) .none (some (lit "HTTP")) none = .ok c₁ ∧
+    requestContext [] (some (lit "example.com")) (.int 80) (some (lit "http")) none = .ok c₂ ∧
+    c₁ ≠ c₂ ∧ normalize c₁ = normalize c₂ ∧ isOk (normalize c₁) = true ∧
+    List.lookup (lower (schemeOr (lit "HTTP"))) Gen.portByScheme = some 80 := by
+  refine ⟨_, _, rfl, rfl, by decide +kernel, by decide +kernel, by decide +kernel, by decide +kernel⟩
 
 /-- `C18_unknown_rejected`: `proxy` (a connection keyword outside `PoolKey`) is rejected -/
 example : normalize (exA ++ [(lit "proxy", .obj 3)]) = .error .typeError ∧
